@@ -136,7 +136,7 @@ var boundaryInts = []string{
 var oddLits = []string{
 	"NaN", "nan", "NAN", "+nan", "-nan", "Inf", "inf", "+Inf", "-inf", "Infinity", "-INFINITY", "infin", "in",
 	"1.0", "1.00", "0.0", "x1.0", "1.0.0", "-1.0", "+1.0", "01.0", "1.", ".5", ".", "1e3", "1E3", "1e", "1e+", "1e-2", "1.5e1", "12.5", "2147483647.5", "-2147483648.5", "4294967295.9",
-	"0x10", "0X1p4", "1_000", "_1", "1_", "0b1", "0o7", "07", "007", "-0", "+0", "-0.0", "-0.4", "- 1", "1 2", "１", "٣", "1 ", "　1", "\t7\n", "true", "TRUE", "True", "tRUE", "t", "T", "f", "F", "false", "False", "FALSE", "yes", "no", "on", "2", "-1", "1.5", "0.5",
+	"0x10", "0X1p4", "1_000", "_1", "1_", "0b1", "0o7", "07", "007", "010", "0100", "0755", "-017", "00", "08", "09", "000123", "-0", "+0", "-0.0", "-0.4", "- 1", "1 2", "１", "٣", "1 ", "　1", "\t7\n", "true", "TRUE", "True", "tRUE", "t", "T", "f", "F", "false", "False", "FALSE", "yes", "no", "on", "2", "-1", "1.5", "0.5",
 	"abc", "1a", "a1", "1-", "--1", "+-1", "1+1", "", " ", "  ",
 }
 
